@@ -53,11 +53,12 @@ pub fn c18_case(src: &mut Src, obs: &mut Obs) -> CaseResult {
         let mut st = sh.lock().unwrap();
         let plan_len = src.below(400);
         for _ in 0..plan_len {
-            let p = match src.weighted(&[3, 3, 2, 2]) {
+            let p = match src.weighted(&[3, 3, 2, 2, 1]) {
                 0 => WPlan::Accept(1 + src.below(4)),
                 1 => WPlan::Accept(5 + src.below(60)),
                 2 => WPlan::Yield,
-                _ => WPlan::Accept(100_000),
+                3 => WPlan::Accept(100_000),
+                _ => WPlan::LateAck,
             };
             if matches!(p, WPlan::Accept(n) if n < 1000) {
                 partial = true;
